@@ -207,7 +207,7 @@ const SIZES: [usize; 2] = [16, 32];
 fn build_pool(kind: Kind, cfg: &zsim_core::Chan) -> (Pool, String) {
     match kind {
         Kind::Secure => {
-            let cache = *cfg.pick(&[1usize, 2, 4]);
+            let cache = *cfg.pick(&[0usize, 0, 1, 2, 4]);
             let mut c = SecurePoolConfig::new(32, 64, 8).with_local_cache_size(cache);
             c.enable_huge_pages = false;
             c.enable_numa_awareness = false;
@@ -253,7 +253,7 @@ impl Scenario for PoolScenario {
         let kind = self.kind;
         let cfg = cx.src.chan("cfg");
         let nthreads = 2 + cfg.biased_zero(2, 1, 3) as usize;
-        let e1cfg = e1::draw_cfg(&cfg, 6000);
+        let e1cfg = e1::draw_cfg(&cfg, 12000);
         let (pool, desc) = build_pool(kind, &cfg);
         cx.ev(format!("pool {} {} threads={}", kind.name(), desc, nthreads));
         let secure_preseed_extra = if kind == Kind::Secure { 4 } else { 0 };
